@@ -38,7 +38,8 @@ NS = [1, 2, 3, 5]
 DDM_MENU = [(2.0, 3.0), (1.0, 1.0), (1.0, 2.0), (0.5, 1.0), (2.0, 2.0), (0.0, 1.0), (0.5, 0.75), (3.0, 2.0)]
 EDDM_MENU = [(0.95, 0.9), (1.0, 1.0), (1.0, 0.5), (0.75, 0.5), (1.0, 0.9), (0.5, 0.25)]
 # incl. warning level stricter than the drift level (legal: the drift test comes first, a warning is then impossible)
-STEPD_MENU = [(0.05, 0.003), (0.5, 0.25), (0.25, 0.05), (1.0, 0.5), (0.05, 0.0), (0.0, 0.05), (0.003, 0.25), (0.25, 0.5)]
+STEPD_MENU = [(0.05, 0.003), (0.5, 0.25), (0.25, 0.05), (1.0, 0.5), (0.05, 0.0), (0.0, 0.05), (0.003, 0.25), (0.25, 0.5),
+              (0.6, 0.003), (0.7, 0.6), (0.95, 0.75)]     # levels above 1/2 (legal; the suite itself uses 0.6 / 0.7): negative critical values
 
 
 # ---------------------------------------------------------------- critical values for STEPD
@@ -311,6 +312,11 @@ def attained(kind, n, L, rng):
 
 
 def run(ctx):
+    # detector objects are independent of one another (a consequence of "the outputs are a function of the detector's own
+    # parameters and history"): solo trace = trace when a second object of the class is updated alternately (impl/zoo.py)
+    from impl import zoo as _zoo
+    for _f in _zoo.isolation_failures(ctx, ['DDM', 'EDDM', 'STEPD']):
+        ctx.fail(signature={"clause": "detector-objects-independent"}, **_f)
     rng = np.random.default_rng(ctx.seed)
     L = 10 if ctx.quick else 13
     ctx.exhaustive = True
@@ -391,7 +397,7 @@ def run(ctx):
     n_long = 8 if ctx.quick else 40
     long_cfgs = {"ddm": [(30, 2.0, 3.0), (10, 1.5, 2.5), (50, 2.0, 3.0)],
                  "eddm": [(30, 0.95, 0.9), (10, 0.9, 0.8), (15, 0.98, 0.95)],
-                 "stepd": [(30, 0.05, 0.003), (10, 0.1, 0.01), (50, 0.05, 0.003), (20, 0.0, 0.01)]}
+                 "stepd": [(30, 0.05, 0.003), (10, 0.1, 0.01), (50, 0.05, 0.003), (20, 0.0, 0.01), (30, 0.7, 0.6)]}
     total_d = {}
     for i in range(n_long):
         n = int(rng.integers(1500, 5001))
